@@ -295,6 +295,13 @@ Proof.
   destruct (h_expand_copy nullf b bodies st st' hs Hv H) as (He & _ & Hm). split; [exact He | exact Hm].
 Qed.
 
+(** Allocation-only operations ([String.Append] / [Concat], used by all other transformations
+    together with sub-slicing) never change what an existing header denotes. *)
+Theorem C09_frame_alloc_only :
+  forall {E N : Type} (st e : list (list E)) (G : list (N * hdr)),
+    (forall p, In p G -> hvalid st (snd p)) -> den (st ++ e) G = den st G.
+Proof. intros E N st e G HG. exact (den_ext st e G HG). Qed.
+
 (** Before fix D08a: with the built-in [append] and Go's doubling growth, the body
     1 2 3 4 5 6 with 1..5 nullable yields bodies that differ from the model's: the slices share
     backing arrays from capacity 4 on, the full body 1 2 3 4 5 6 is lost and 1 2 3 5 5 6 appears
@@ -377,6 +384,7 @@ Print Assumptions C09_no_empty_correct.
 Print Assumptions C09_all_reachable_correct.
 Print Assumptions C09_frame_del.
 Print Assumptions C09_del_heap_fixed_correct.
+Print Assumptions C09_frame_alloc_only.
 Print Assumptions C09_D08a_refuted_before_fix.
 Print Assumptions C09_left_factor_post_refuted.
 Print Assumptions C09_del_verify_refuted.
